@@ -26,13 +26,16 @@ def build_demo(root, demo, out, extra):
 
 
 def demo_flags(demo_src):
-    head = demo_src[:3000]
+    """flags named on the gcc/clang command line(s) quoted in the demo's header comment (joined continuation lines)"""
+    head = demo_src[:4000].replace('\\\n', ' ')
+    lines = [l for l in head.splitlines() if re.search(r'\b(gcc|clang|cc)\b', l) and ('demo' in l or 'src/' in l)]
+    cmd = ' '.join(lines) if lines else head
     extra = []
-    m = re.search(r'-fsanitize=([a-z,]+)', head)
+    m = re.search(r'-fsanitize=([a-z,]+)', cmd)
     if m:
         extra += ['-fsanitize=' + m.group(1), '-fno-omit-frame-pointer']
-    for fl in ('-funsigned-char', '-fsigned-char', '-O0', '-O2', '-O3', '-DNDEBUG', '-UNDEBUG'):
-        if re.search(r'(?<![\w-])' + re.escape(fl) + r'(?![\w-])', head):
+    for fl in ('-funsigned-char', '-fsigned-char', '-O0', '-O2', '-O3', '-DNDEBUG'):
+        if re.search(r'(?<![\w-])' + re.escape(fl) + r'(?![\w-])', cmd):
             extra.append(fl)
     return extra
 
@@ -55,6 +58,8 @@ def main():
         checks = [prop] + ['C%02d' % i for i in range(1, 21) if 'C%02d' % i != prop]
     patch = os.path.join(wt, 'patch%s.diff' % letter); demo = os.path.join(wt, 'demo%s.c' % letter)
     sid = '%s-%s' % (prop, letter)
+    if '--id' in sys.argv:
+        sid = sys.argv[sys.argv.index('--id') + 1]
     meta = {'id': sid, 'breaks_property': prop, 'source': 'independent sub-agent given only the property text and a scratch worktree', 'ran': []}
     if not os.path.exists(patch) or not os.path.exists(demo):
         print(json.dumps({'id': sid, 'status': 'missing files'})); return 2
